@@ -329,6 +329,31 @@ REJECT = [
     ("con_as_ref_struct_and_field", "contradiction", "#[derive(derive_more::AsRef)] #[as_ref(forward)] pub struct S { #[as_ref] a: Vec<u8> }"),
     ("con_as_ref_mark_and_skip_mixed", "contradiction", "#[derive(derive_more::AsRef)] pub struct S { #[as_ref] a: Vec<u8>, #[as_ref(skip)] b: u8 }"),
     ("con_as_ref_forward_types", "contradiction", "#[derive(derive_more::AsRef)] #[as_ref(forward)] #[as_ref([u8])] pub struct S(Vec<u8>);"),
+    # the same contradictions with the two arguments in the other order (a check that runs after a parsing loop must not depend on the order)
+    ("con_from_forward_skip", "contradiction", "#[derive(derive_more::From)] pub enum E { #[from(forward)] #[from(skip)] A(u8), B(u16) }"),
+    ("con_from_types_skip", "contradiction", "#[derive(derive_more::From)] pub enum E { #[from(u8)] #[from(skip)] A(u16), B(u32) }"),
+    ("con_from_forward_types", "contradiction", "#[derive(derive_more::From)] #[from(forward)] #[from(u8)] pub struct S(u16);"),
+    ("con_from_skip_then_plain", "contradiction", "#[derive(derive_more::From)] pub enum E { #[from(skip)] #[from] A(u16), B(u32) }"),
+    ("con_debug_fmt_skip", "contradiction", "#[derive(derive_more::Debug)] pub struct S { #[debug(\"x\")] #[debug(skip)] a: u8, b: u8 }"),
+    ("con_error_not_source_then_source", "contradiction", ERR + "pub struct S { #[error(not(source))] #[error(source)] a: std::io::Error }"),
+    ("con_as_ref_skip_forward", "contradiction", "#[derive(derive_more::AsRef)] pub struct S { #[as_ref(skip)] #[as_ref(forward)] a: Vec<u8>, b: u8 }"),
+    ("con_as_ref_skip_plain", "contradiction", "#[derive(derive_more::AsRef)] pub struct S { #[as_ref(skip)] #[as_ref] a: Vec<u8>, b: u8 }"),
+    ("con_as_ref_types_forward", "contradiction", "#[derive(derive_more::AsRef)] #[as_ref([u8])] #[as_ref(forward)] pub struct S(Vec<u8>);"),
+    ("con_as_ref_skip_and_mark_mixed", "contradiction", "#[derive(derive_more::AsRef)] pub struct S { #[as_ref(skip)] a: Vec<u8>, #[as_ref] b: u8 }"),
+    # Into: plain types mixed with owned(..) / ref(..) / ref_mut(..) in one attribute, in every order
+    ("con_into_plain_then_ref", "contradiction", "#[derive(derive_more::Into)] #[into(u16, ref)] pub struct S(u8);"),
+    ("con_into_ref_then_plain", "contradiction", "#[derive(derive_more::Into)] #[into(ref, u16)] pub struct S(u8);"),
+    ("con_into_plain_then_owned_types", "contradiction", "#[derive(derive_more::Into)] #[into(u16, owned(u32))] pub struct S(u8);"),
+    ("con_into_owned_types_then_plain", "contradiction", "#[derive(derive_more::Into)] #[into(owned(u32), u16)] pub struct S(u8);"),
+    ("con_into_plain_then_ref_mut_types", "contradiction", "#[derive(derive_more::Into)] #[into(u16, ref_mut(u8))] pub struct S(u8);"),
+    ("con_into_field_plain_then_ref", "contradiction", "#[derive(derive_more::Into)] pub struct S { #[into(u16, ref)] a: u8, b: u8 }"),
+    # duplicates with the spellings mixed / in the other order
+    ("dup_debug_ignore_skip", "duplicate", "#[derive(derive_more::Debug)] pub struct S { #[debug(ignore)] #[debug(skip)] a: u8, b: u8 }"),
+    ("dup_from_skip_ignore", "duplicate", "#[derive(derive_more::From)] pub enum E { #[from(skip)] #[from(ignore)] A(u8), B(u16) }"),
+    ("dup_into_ignore_skip", "duplicate", "#[derive(derive_more::Into)] pub struct S { #[into(ignore)] #[into(skip)] a: u8, b: u16 }"),
+    ("dup_as_ref_ignore_skip", "duplicate", "#[derive(derive_more::AsRef)] pub struct S { #[as_ref(ignore)] #[as_ref(skip)] a: u8, b: u16 }"),
+    ("dup_display_fmt_after_bound", "duplicate", "#[derive(derive_more::Display)] #[display(\"x\")] #[display(bound(u8: Copy))] #[display(\"y\")] pub struct S(u8);"),
+    ("dup_display_rename_after_fmt", "duplicate", "#[derive(derive_more::Display)] #[display(rename_all = \"snake_case\")] #[display(\"x\")] #[display(rename_all = \"UPPERCASE\")] pub enum E { A, B }"),
     # an attribute of the enum itself where the derive only reads its variants' (open finding: silently ignored)
     ("kind_from_forward_enum", "item-kind", "#[derive(derive_more::From)] #[from(forward)] pub enum E { A(u8), B(u16) }"),
     ("kind_from_types_enum", "item-kind", "#[derive(derive_more::From)] #[from(u8)] pub enum E { A(u16), B(u32) }"),
